@@ -299,7 +299,9 @@ fn pairs(src: &mut Src, st: &mut Stats, _env: &Env) -> CaseResult {
         Some(x) => x,
         None => return Ok(()),
     };
-    // near ties between distinct numbers are outside the statement
+    // the algebraic laws hold for every pair
+    laws_only("pairs", &lt, &rt, matches!((&l, &r), (J::Num(_), J::Num(_))), st)?;
+    // the *values* of comparisons between near ties are outside the statement
     if let (J::Num(a), J::Num(b2)) = (&l, &r) {
         if !well_separated(a.f(), b2.f()) {
             st.discard();
@@ -327,23 +329,130 @@ fn pairs(src: &mut Src, st: &mut Stats, _env: &Env) -> CaseResult {
 /// the well-separated bound.
 fn has_near_tie(l: &J, r: &J) -> bool {
     match (l, r) {
-        (J::Num(a), J::Num(b2)) => !well_separated(a.f(), b2.f()),
+        (J::Num(a), J::Num(b2)) => !well_separated(a.f(), b2.f()) || (a.f() == b2.f() && !a.same_value(b2)),
         (J::Arr(a), J::Arr(b2)) => a.iter().zip(b2.iter()).any(|(x, y)| has_near_tie(x, y)),
         (J::Obj(a), J::Obj(b2)) => a.iter().any(|(k, x)| b2.get(k).map(|y| has_near_tie(x, y)).unwrap_or(false)),
         _ => false,
     }
 }
 
+/// Laws that hold for *every* pair, including numbers that are only a few
+/// units in the last place apart (where `==` is tolerant): `!=` negates `==`,
+/// `==` is symmetric and reflexive, `a <= b` iff `a < b` or `a == b`, `a < b`
+/// iff `b > a`, ordering is boolean exactly for number pairs.
+fn laws_only(sub: &str, lt: &str, rt: &str, both_numbers: bool, st: &mut Stats) -> CaseResult {
+    let doc = format!("{{\"l\":{},\"r\":{}}}", lt, rt);
+    let routes = [("fields", build_expr("l", "r"), doc.clone()), ("literals", build_expr(&spell_backtick(lt), &spell_backtick(rt)), "0".to_string())];
+    for (route, expr, d) in routes.iter() {
+        st.eval();
+        let case = json!({"l": lt, "r": rt, "route": route, "expression": expr, "document": d});
+        let g = match search_text(expr, d) {
+            ImpOut::Ok(J::Arr(a)) if a.len() == 15 => a,
+            other => return Err(Failure::new(sub, "comparison-failed", other.brief(), case)),
+        };
+        let b = |i: usize| -> Option<bool> {
+            match &g[i] {
+                J::Bool(x) => Some(*x),
+                _ => None,
+            }
+        };
+        // indexes: 0 l==r 1 l!=r 2 l<r 3 l<=r 4 l>r 5 l>=r 6 r==l 7 r!=l 8 r<l 9 r<=l 10 r>l 11 r>=l 12 l==l 13 r==r 14 l!=l
+        let mut bad: Option<String> = None;
+        let eq = b(0);
+        if eq.is_none() || b(1) != eq.map(|x| !x) || b(7) != b(6).map(|x| !x) {
+            bad = Some("`!=` is not the negation of `==`".into());
+        } else if b(0) != b(6) {
+            bad = Some("`==` is not symmetric".into());
+        } else if b(12) != Some(true) || b(13) != Some(true) || b(14) != Some(false) {
+            bad = Some("`==` is not reflexive".into());
+        } else if both_numbers {
+            let all_bool = (2..6).chain(8..12).all(|i| b(i).is_some());
+            if !all_bool {
+                bad = Some("ordering of two numbers is not a boolean".into());
+            } else if b(3) != Some(b(2).unwrap() || eq.unwrap()) || b(9) != Some(b(8).unwrap() || eq.unwrap()) {
+                bad = Some("`a <= b` differs from `a < b || a == b`".into());
+            } else if b(5) != Some(b(4).unwrap() || eq.unwrap()) || b(11) != Some(b(10).unwrap() || eq.unwrap()) {
+                bad = Some("`a >= b` differs from `a > b || a == b`".into());
+            } else if b(2) != b(10) || b(4) != b(8) {
+                bad = Some("`a < b` differs from `b > a`".into());
+            }
+        } else if (2..6).chain(8..12).any(|i| !g[i].is_null()) {
+            bad = Some("ordering of non-numbers is not null".into());
+        }
+        if let Some(m) = bad {
+            return Err(Failure::new(sub, "comparison-laws-broken", format!("{} ({} route): {}", m, route, J::Arr(g.clone()).to_json()), case));
+        }
+    }
+    Ok(())
+}
+
+fn near_ties(src: &mut Src, st: &mut Stats, _env: &Env) -> CaseResult {
+    // a double and a neighbour a few ulps away, or adjacent integers beyond 2^53
+    let (lt, rt): (String, String) = match src.below(4) {
+        0 => {
+            let x = [0.1 + 0.2, 0.7100000000000002, 1.0 / 3.0, 2.0f64.sqrt(), 1e22, 123456.789e3, 5e-324, 2.2250738585072014e-308][src.below(8)];
+            let k = 1 + src.below(3) as u64;
+            let y = f64::from_bits(if src.flip() { x.to_bits() + k } else { x.to_bits().saturating_sub(k) });
+            (format!("{:?}", x), format!("{:?}", y))
+        }
+        1 => {
+            let f = f64::from_bits(src.u64());
+            let x = if f.is_finite() { f } else { 1.5 };
+            let k = 1 + src.below(4) as u64;
+            let y = f64::from_bits(x.to_bits().wrapping_add(k));
+            let y = if y.is_finite() { y } else { x };
+            (format!("{:?}", x), format!("{:?}", y))
+        }
+        2 => {
+            let base: i128 = *src.pick(&[(1i128 << 53), (1i128 << 60) + 12345, i64::MAX as i128 - 3, (1i128 << 63) + 7, u64::MAX as i128 - 2]);
+            let d = src.range(0, 2) as i128;
+            (format!("{}", base), format!("{}", base + d))
+        }
+        _ => {
+            let x = src.range(-50, 50) as f64 / 8.0 + 0.1;
+            let y = f64::from_bits(x.to_bits() ^ 1);
+            (format!("{:?}", x), format!("{:?}", y))
+        }
+    };
+    let nested = src.chance(90);
+    let (lt, rt, both_numbers) = if nested {
+        match src.below(3) {
+            0 => (format!("[{}]", lt), format!("[{}]", rt), false),
+            1 => (format!("{{\"a\":{}}}", lt), format!("{{\"a\":{}}}", rt), false),
+            _ => (format!("[1,{{\"k\":[{}]}}]", lt), format!("[1,{{\"k\":[{}]}}]", rt), false),
+        }
+    } else {
+        (lt, rt, true)
+    };
+    laws_only("near-ties", &lt, &rt, both_numbers, st)?;
+    st.class(if nested { "near-tie:nested" } else { "near-tie:numbers" });
+    if st.nontrivial(&format!("{}\u{0}{}", lt, rt)) {
+        st.sample(|| json!({"l": lt, "r": rt}));
+    }
+    Ok(())
+}
+
 fn case_pair(lt: &str, rt: &str, st: &mut Stats) -> CaseResult {
     let l = J::Num(numeral_value(lt));
     let r = J::Num(numeral_value(rt));
     let (l, r) = (J::parse(lt).unwrap_or(l), J::parse(rt).unwrap_or(r));
+    let both = matches!((&l, &r), (J::Num(_), J::Num(_)));
+    laws_only("cases", lt, rt, both, st)?;
+    if let (J::Num(a), J::Num(b2)) = (&l, &r) {
+        // distinct numbers that are the same (or nearly the same) double: only the laws apply
+        if !well_separated(a.f(), b2.f()) || (a.f() == b2.f() && !a.same_value(b2)) {
+            return Ok(());
+        }
+    }
+    if has_near_tie(&l, &r) {
+        return Ok(());
+    }
     check_pair("cases", &l, lt, &r, rt, st)
 }
 
 fn fixed_cases(_env: &Env, st: &mut Stats) -> Vec<Failure> {
     let mut out = vec![];
-    for (l, r) in [("1.5e308", "1.6e308"), ("1.7e308", "-1.7e308"), ("1", "1.0"), ("5e-324", "1e-323"), ("0", "-0.0"), ("[1,{\"a\":2}]", "[1.0,{\"a\":2e0}]"), ("1", "\"1\"")] {
+    for (l, r) in [("1.5e308", "1.6e308"), ("1.7e308", "-1.7e308"), ("1", "1.0"), ("5e-324", "1e-323"), ("0", "-0.0"), ("[1,{\"a\":2}]", "[1.0,{\"a\":2e0}]"), ("1", "\"1\""), ("0.30000000000000004", "0.3"), ("9007199254740993", "9007199254740992"), ("[0.30000000000000004]", "[0.3]")] {
         if let Err(f) = case_pair(l, r, st) {
             out.push(f);
         }
@@ -367,6 +476,7 @@ pub fn property() -> Property {
         minimise: None,
         subs: vec![
             Sub::Custom(CustomSub { name: "cases", run: fixed_cases, replay: replay_case }),
+            Sub::Bytes(BytesSub { name: "near-ties", f: near_ties, max_len: 48, quick: Budget { threads: 4, cases: 4000 }, thorough: Budget { threads: 16, cases: 200_000 }, keep_unreproducible: false }),
             Sub::Bytes(BytesSub { name: "pairs", f: pairs, max_len: 600, quick: Budget { threads: 8, cases: 6000 }, thorough: Budget { threads: 16, cases: 300_000 }, keep_unreproducible: false }),
         ],
     }
